@@ -6,6 +6,7 @@ import gate
 
 CONFIGS = ['prod', 'testutils']
 EXPLANATION = (
+    'O6: the store registers its RPC services and starts its tasks only after the rebuild of the sets from storage succeeded (C07.R3 re-evaluated). '
     'ST: every provided method of the Storage trait that takes documents (put_with_ctx, multi_put_with_ctx) interpreted with / without a context against an implementor answering Ok / an error: it calls the required method of its own name once with the caller\'s keyspace and documents and returns that result unchanged. '
     'SEM (primary): the five keyspace-actor handlers are interpreted sequentially on abstract messages (pre-state of the key x every answer storage can giv'
     'e, incl. a bulk call failing part-way; the real OrSWotSet code runs underneath): nothing is written for an operation the set refuses, a mutation reach'
@@ -123,6 +124,10 @@ def check(ctx):
     # summaries take a storage call for an oracle that reports truthfully, and for the bundled backends the report is the required method's
     import storage_abs
     storage_abs.check_defaults(ctx, facts, 'C02.ST')
+    # O6: at start-up the set is rebuilt from the store before anything that can write is served (= C07.R3): a write served during the
+    # rebuild is stored through a temporary actor that the loader then replaces — the store holds a document the set lacks (round 7, C02g).
+    import c07
+    c07.check_R3(ctx, facts, rule='C02.O6')
     import handlers_abs
     if handlers_abs.check_handlers(ctx, facts, 'C02.SEM'):
         gate.check_gate(ctx, facts, 'C02.G')
